@@ -274,7 +274,8 @@ def phase_b(payload):
                         r["resolved"] = None
                     mk = p / "payload.txt"
                     r["mark"] = mk.read_text() if mk.is_file() else None
-                if j["mode"] == "run" and case.get("real_resubmit", True):
+                dangling = p.is_symlink() and not p.exists()    # a real submit on a dangling job path would hang the scheduler
+                if j["mode"] == "run" and case.get("real_resubmit", True) and not dangling:
                     ran = p / "ran.txt"
                     before = ran.read_text().count("ran") if ran.is_file() else 0
                     o2 = build(j["spec"], subst=True)
